@@ -149,3 +149,20 @@ pub fn queries(units: &[(usize, usize)], sw: usize, trail: bool, q: u8) {
         }
     }
 }
+
+/// SampleIndex::new + range with the REAL code: `nv` symbolic strictly increasing values starting
+/// at 0 below a concrete universe (so that the divisions of `parameters` are concrete);
+/// range(v) for a symbolic v < universe brackets v as documented.
+pub fn sample_index(nv: usize, universe: usize) {
+    use simple_sds::rl_vector::index::SampleIndex;
+    let mut vals = [0usize; 20];
+    let mut k = 1;
+    while k < nv { vals[k] = sym::usize(); sym::assume(vals[k] > vals[k - 1] && vals[k] < universe); k += 1; }
+    let idx = SampleIndex::new(vals[..nv].iter().copied(), universe);
+    let v = sym::usize();
+    sym::assume(v < universe);
+    let r = idx.range(v);
+    assert!(r.start < r.end && r.end <= nv);
+    assert!(vals[r.start] <= v);
+    if r.end < nv { assert!(vals[r.end] > v); }
+}
